@@ -131,11 +131,14 @@ func VxC18BlockTransactionsMigration() {
 	done := false
 	for run := 0; run < 3 && !done; run++ {
 		ctx, cancel := context.WithCancel(context.Background())
-		var store db.KeyValueStore = d
+		// every run is stopped by the operator after 60 reads (an uninterrupted run over this chain needs far
+		// fewer): a migration that goes round in circles shows up as "never completes", not as a hung check
+		n := 0
+		at := 60
 		if run == 0 && cancelAt > 0 {
-			n := 0
-			store = vxCancelDB{KeyValueStore: d, n: &n, at: cancelAt, cancel: cancel}
+			at = cancelAt
 		}
+		var store db.KeyValueStore = vxCancelDB{KeyValueStore: d, n: &n, at: at, cancel: cancel}
 		st, err := Migrator{}.Migrate(ctx, store, nil, log.NewNopZapLogger())
 		cancel()
 		vx.Assert(err == nil, "migrate-no-error")
